@@ -337,7 +337,9 @@ def blocking():
             "rows": ["A + E0 / a0 -> B", "B + E0 / a1 -> A", "B + E1 [g0] / a2 -> T",
                      "C + E1 / a3 -> D", "D + E1 / a4 -> C", "C + E2 [g1] / a5 -> I1", "I1 + E3 / a6 -> D",
                      "F + E2 [g2] / a7 -> I2", "I2 + E3 [g3] / a8 -> F", "I2 + E4 / a9 -> F", "F + E0 / a10",
-                     "A + E3 / a11", "D + E4 / a12 -> C"],
+                     "A + E3 / a11", "D + E4 / a12 -> C",
+                     # one event enters the terminate state in region 0 and an interrupt state in region 2: terminate wins
+                     "F + E1 [g4] / a13 -> I2"],
             "state": {"T": {"flags": ["F0"]}, "I1": {"flags": ["F1"]}, "B": {"flags": ["F0"]}},
         }],
     }
